@@ -25,14 +25,14 @@ type replayFile struct {
 }
 
 type runStats struct {
-	Systems       int                 `json:"systems"`
-	Nodes         int                 `json:"nodes"`
-	Edges         int                 `json:"edges"`
-	Chains        int                 `json:"chains"`
-	ChainEvents   int                 `json:"chain_events"`
-	Closed        int                 `json:"closed_systems"`
-	Panics        []core.PanicRecord  `json:"panics"`
-	PerSystem     map[string][3]int   `json:"per_system"` // nodes, edges, closed(1/0)
+	Systems     int                `json:"systems"`
+	Nodes       int                `json:"nodes"`
+	Edges       int                `json:"edges"`
+	Chains      int                `json:"chains"`
+	ChainEvents int                `json:"chain_events"`
+	Closed      int                `json:"closed_systems"`
+	Panics      []core.PanicRecord `json:"panics"`
+	PerSystem   map[string][3]int  `json:"per_system"` // nodes, edges, closed(1/0)
 }
 
 // TestExplore extracts the transition tables of every small pool and runs long random
